@@ -143,3 +143,53 @@ Example ebadf_in_sync :
   probe_entry (snd (run fdo_ebadf pw_ebadf beh_ebadf (sinit false false) script_ebadf)) 1 5 0%nat
   = Some (None, None).
 Proof. vm_compute. reflexivity. Qed.
+
+(* ---- the flag tables and uv__poll_stop for every one of the 16 UV masks ---------------- *)
+Definition uv_masks : list Z := [0; 1; 2; 3; 4; 5; 6; 7; 8; 9; 10; 11; 12; 13; 14; 15].
+
+(* uv_poll_start's translation: READABLE->POLLIN(1), WRITABLE->POLLOUT(4),
+   DISCONNECT->POLLRDHUP(0x2000), PRIORITIZED->POLLPRI(2), for every combination *)
+Lemma flag_table :
+  map poll_of_uv uv_masks =
+  [0; 1; 4; 5; 8192; 8193; 8196; 8197; 2; 3; 6; 7; 8194; 8195; 8198; 8199].
+Proof. vm_compute. reflexivity. Qed.
+
+(* uv__poll_io's translation is its inverse on what can be requested *)
+Lemma flag_roundtrip : forall v, In v uv_masks ->
+  uv_of_poll (poll_of_uv v) = v /\ uv_of_mask (mask_of_uv v) = v /\
+  mand (mask_of_uv v) ALLEV = mask_of_uv v.
+Proof. intros v H. cbn in H. repeat (destruct H as [<-|H]; [vm_compute; auto|]). contradiction. Qed.
+
+(* in every reachable state uv__poll_stop leaves no requested event, whatever was requested *)
+Lemma stop_clears_all s i : NI s -> (i < length (hs s))%nat ->
+  h_pev (hget (poll_stop s i) i) = m0 /\ h_ev (hget (poll_stop s i) i) = m0 /\
+  forall fd, reg (poll_stop s i) fd <> Some i.
+Proof.
+  intros Hn Hl. destruct (NI_poll_stop s i Hn Hl) as [_ [H2 [_ [_ [_ [_ [_ [H8 [H9 _]]]]]]]]]. auto.
+Qed.
+
+(* the finite sweep: start with each of the 16 masks, let the registration reach the kernel,
+   stop: the kernel had exactly the translation of the request, and afterwards the watcher
+   requests nothing, is out of the registry, inactive, and gone from the kernel *)
+Definition sweep_script (v : Z) : list op :=
+  [OOpen 0; OInit 0; OStart 0 (mask_of_uv v); ORun; OStop 0 m0; ORun].
+
+Definition sweep_ok (rng strct : bool) (v : Z) : bool :=
+  let r := run (fun _ => 5) (fun _ => []) (fun _ => []) (sinit rng strct) (sweep_script v) in
+  let s := fst r in
+  let before := probe_watched (snd r) 0 5 in
+  mzero (h_pev (hget s 0)) && mzero (h_ev (hget s 0)) && negb (h_active (hget s 0)) &&
+  match reg s 5 with None => true | Some _ => false end &&
+  match ep s 5 0 with None => true | Some _ => false end &&
+  match before with
+  | Some (Some k, w) => meqb k (mask_of_uv v) && meqb w (mask_of_uv v)
+  | Some (None, _) => false
+  | None => v =? 0                       (* an empty request registers nothing *)
+  end &&
+  match probe_entry (snd r) 1 5 0%nat with Some (None, _) => true | _ => false end.
+
+Lemma stop_sweep : forall rng strct v, In v uv_masks -> sweep_ok rng strct v = true.
+Proof.
+  intros rng strct v H. cbn in H.
+  destruct rng, strct; repeat (destruct H as [<-|H]; [vm_compute; reflexivity|]); contradiction.
+Qed.
